@@ -61,7 +61,7 @@ class References:
   def _add_item_to_unconnected_group(self, item, append = True):
     item = gfapy.OrientedLine(item)
     if isinstance(item.line, gfapy.Line):
-      item.line = item.name
+      item._set_line(item.name)
     if append:
       self.items.append(item)
     else:
@@ -89,4 +89,4 @@ class References:
 
   def _initialize_references(self):
     for i in range(len(self.items)):
-      self.items[i].line = self._line_for_ref_symbol(self.items[i].line)
+      self.items[i]._set_line(self._line_for_ref_symbol(self.items[i].line))
